@@ -32,8 +32,17 @@ def struct_signal_names(design):
   out = set()
 
   def add(prefix, n):
-    out.add(prefix + n.replace("[", "__").replace("]", ""))      # element of a list: base__i
-    out.add(prefix + n.split("[", 1)[0])                           # the list as a whole: base, base__field{element i}
+    full = (prefix + n).replace(".", "__")                          # interface member: ifc__member
+    # an index of a list (of signals or of components) appears either as __i (that element) or not at all (the list
+    # as a whole: base, base__field{element i}); every combination over the indices of the path
+    groups = re.split(r"(\[\d+\])", full)
+    forms = [""]
+    for g in groups:
+      if g.startswith("["):
+        forms = [f + "__" + g[1:-1] for f in forms] + forms
+      else:
+        forms = [f + g for f in forms]
+    out.update(forms)
   for cn, c in design["classes"].items():
     for n, d, t in c["ports"]:
       if t[0] == "s": add("", n)
@@ -47,6 +56,10 @@ def struct_signal_names(design):
 
 def judge(case, stats=None):
   v = c03.judge_backend(case, "yosys", stats)
+  if case.get("phase") == "B":
+    # struct types only on top-level input ports: the known flaw of the flattening cannot show, so every driver
+    # problem is reported under its own signature (a defect in the struct <-> flat-port wiring must not hide behind it)
+    return v
   if v is not None and v[0].startswith("yosys:drivers:"):
     # driver problems that concern only the packed / per-field / leaf forms of struct-typed signals are the known
     # structural flaw of the Yosys flattening; anything touching a plain Bits signal keeps its own signature
@@ -59,9 +72,10 @@ def judge(case, stats=None):
 
 @st.composite
 def cases_b(draw):
-  design = draw(rtl_gen.designs(translatable=True, structs="top_in_only", wide=draw(st.integers(0, 4)) == 0, max_steps=5))
+  design = draw(rtl_gen.designs(translatable=True, structs="top_in_only", wide=draw(st.integers(0, 4)) == 0, max_steps=5,
+                                ifcs=draw(st.booleans())))
   seq = draw(rtl_gen.input_seqs(design, ncycles=draw(st.integers(3, 7))))
-  return {"design": design, "seq": seq}
+  return {"design": design, "seq": seq, "phase": "B"}
 
 
 def run_shard(ctx):
@@ -75,6 +89,7 @@ def run_shard(ctx):
   def t(case):
     if ctx.out_of_time(): return
     ctx.count()
+    for f_ in rtl_gen.features(case["design"]): ctx.label(f_)
     ctx.exclude("struct_types_restricted_to_top_level_inputs")
     stats = {}
     v = judge(case, stats)
